@@ -12,7 +12,7 @@ import itertools, random
 
 TAGS = ['v0', 'v1', 'v2']
 MOD = 1000003
-LITS = "+-*/=<>()[],.!&^#@~?%\"$:;|{}`'"
+LITS = "+-*/=<>()[],.!&^#@~?%\"$:;|{}`'aeoprt0_"
 
 
 def tname(g, i):
@@ -63,6 +63,23 @@ def random_grammar(rnd, nT=None, nN=None, max_alts=3, max_len=3, p_term=0.55, p_
             if rnd.random() < 0.2:
                 r['prec'] = rnd.randrange(nT)
     return dict(terms=terms, nonterms=nonterms, precs=precs, rules=rules, start=0)
+
+
+def twin_actions(g, rnd):
+    """Makes the actions of all alternatives of one nonterminal with the same length textually identical
+    (same coefficients, no rule number in the text) while their symbols carry different union fields."""
+    by = {}
+    for r in g['rules']:
+        k = (r['lhs'], len(r['rhs']))
+        if k not in by:
+            by[k] = (rnd.randint(0, 9), [rnd.randint(1, 9) for _ in r['rhs']])
+        r['c'], r['coef'] = by[k][0], list(by[k][1])
+    for i, t in enumerate(g['terms']):
+        t['tag'] = TAGS[i % 3]
+    for j, n in enumerate(g['nonterms']):
+        n['tag'] = TAGS[(j + 1) % 3]
+    g['plain_actions'] = True
+    return g
 
 
 def productive(g):
